@@ -1,6 +1,6 @@
 (* C16 — property theorems (statements only; proofs live in Proofs*.v). *)
 From Coq Require Import ZArith QArith Qabs List Bool.
-Require Import QV.C16.Model QV.C16.Spec QV.C16.Proofs QV.C16.Proofs2 QV.C16.Proofs3 QV.C16.Proofs4 QV.C16.Proofs5 QV.C16.Proofs_term QV.C16.Proofs6 QV.C16.Proofs_fuel QV.C16.Proofs7 QV.C16.Proofs8 QV.C16.Proofs9 QV.C16.Proofs10 QV.C16.Gen_tabor QV.C16.GenEq QV.C16.Gen_loop QV.C16.GenEqLoop QV.C16.GenLibParse QV.C16.Gen_parse QV.C16.GenEqParse.
+Require Import QV.C16.Model QV.C16.Spec QV.C16.Proofs QV.C16.Proofs2 QV.C16.Proofs3 QV.C16.Proofs4 QV.C16.Proofs5 QV.C16.Proofs_term QV.C16.Proofs6 QV.C16.Proofs_fuel QV.C16.Proofs7 QV.C16.Proofs8 QV.C16.Proofs9 QV.C16.Proofs10 QV.C16.Proofs11 QV.C16.Gen_tabor QV.C16.GenEq QV.C16.Gen_loop QV.C16.GenEqLoop QV.C16.GenLibParse QV.C16.Gen_parse QV.C16.GenEqParse.
 Import ListNotations.
 Open Scope Z_scope.
 
@@ -461,3 +461,63 @@ Theorem C16_plays_segment_nonvacuous : exists bin,
   sample_segment (ex_cfg 3 5) (ex_wf 0 (1 # 4) 192) = Ok bin /\ length bin = 384%nat.
 Proof. exact ex_segment. Qed.
 Print Assumptions C16_plays_segment_nonvacuous.
+
+(* ---- round 6: piece lengths "compatible with the sample rate" = within the tolerance of get_waveform_length ----------
+   (clause Q1 of the statement; before: proved for exact integer lengths only, lengths within 1e-10 of an integer were
+   decided by the Python harness).  `Spec.spec_tol`: a piece whose exact length is within the tolerance of its sample
+   count wf_n is specified as its wf_n samples, a piece outside has no specification.  C16_plays for every table whose
+   lengths are within the tolerance (equal data on the used channels as in C16_plays_used_channels): *)
+Theorem C16_plays_within_tolerance : forall c tbl prog o,
+  good prog = true ->
+  (forall w1 w2 d1 d2, nth_error tbl w1 = Some d1 -> nth_error tbl w2 = Some d2 -> wf_cls d1 = wf_cls d2 ->
+     restrict c d1 = restrict c d2) ->
+  (forall w d, nth_error tbl w = Some d -> (Qabs (wf_len d - inject_Z (wf_n d)) <= tolerance)%Q) ->
+  compile c tbl prog = Ok o ->
+  exists s, spec_tol c tbl prog = Some s /\ expand o = Some s.
+Proof. exact compile_plays_tol. Qed.
+Print Assumptions C16_plays_within_tolerance.
+
+(* the compiler model cannot tell a length within the tolerance from the integer itself (every fuel, configuration,
+   table — also tables with pieces outside the tolerance, which `snap` leaves alone) ... *)
+Theorem C16_tolerance_invisible : forall ff pf c tbl prog,
+  compile_with ff pf c (map snap tbl) prog = compile_with ff pf c tbl prog.
+Proof. exact compile_with_snap. Qed.
+Print Assumptions C16_tolerance_invisible.
+
+(* ... because get_waveform_length is constant on the tolerance interval around an integer (1e-10 < 1/2: the nearest
+   integer is unique there) *)
+Theorem C16_waveform_length_within_tolerance : forall len n,
+  (Qabs (len - inject_Z n) <= tolerance)%Q -> waveform_length len = waveform_length (inject_Z n).
+Proof. exact waveform_length_near. Qed.
+Print Assumptions C16_waveform_length_within_tolerance.
+
+(* spec_tol is the old specification on tables with exact lengths, and it is undefined as soon as the program plays a
+   piece outside the tolerance (so Corr.check_spec, which evaluates spec_tol through spec_cached, fails on an
+   implementation that accepts such a program) *)
+Theorem C16_spec_tol_exact : forall c tbl prog,
+  (forall w d, nth_error tbl w = Some d -> (wf_len d == inject_Z (wf_n d))%Q) -> spec_tol c tbl prog = spec c tbl prog.
+Proof. exact spec_tol_exact. Qed.
+Print Assumptions C16_spec_tol_exact.
+
+Theorem C16_spec_tol_outside_tolerance : forall c tbl prog w wd,
+  In w (flatten prog) -> nth_error tbl w = Some wd ->
+  ~ (Qabs (wf_len wd - inject_Z (wf_n wd)) <= tolerance)%Q -> spec_tol c tbl prog = None.
+Proof. exact spec_tol_outside. Qed.
+Print Assumptions C16_spec_tol_outside_tolerance.
+
+(* what Corr.check_spec evaluates (`spec_eval`) is spec_tol *)
+Theorem C16_spec_eval_is_spec_tol : forall c tbl prog, spec_cached c (map snap tbl) prog = spec_tol c tbl prog.
+Proof. intros c tbl prog. apply spec_cached_eq. Qed.
+Print Assumptions C16_spec_eval_is_spec_tol.
+
+(* non-vacuity: the example table with every piece 2^-40 samples too long — not exact (the hypothesis of C16_plays is
+   false), within the tolerance — is accepted *)
+Theorem C16_plays_within_tolerance_nonvacuous :
+  good ex_prog = true /\
+  (forall w1 w2 d1 d2, nth_error ex_tbl_near w1 = Some d1 -> nth_error ex_tbl_near w2 = Some d2 -> wf_cls d1 = wf_cls d2 ->
+     restrict (ex_cfg 3 5) d1 = restrict (ex_cfg 3 5) d2) /\
+  (forall w d, nth_error ex_tbl_near w = Some d -> (Qabs (wf_len d - inject_Z (wf_n d)) <= tolerance)%Q) /\
+  ~ (forall w d, nth_error ex_tbl_near w = Some d -> (wf_len d == inject_Z (wf_n d))%Q) /\
+  exists o, compile (ex_cfg 3 5) ex_tbl_near ex_prog = Ok o.
+Proof. exact ex_hyps_tol. Qed.
+Print Assumptions C16_plays_within_tolerance_nonvacuous.
